@@ -155,6 +155,9 @@ _DEDUP_SRC = ('''
 def dfn({sig}):''' + _DEDUP_BODY + '''
 
 class DHolder(object):
+    def __len__(self):
+        return 0            # a falsy instance (an empty container): binding, keys and dirty() must test "is None"
+
     @dd
     @asynq.asynq()
     def dm(self, {sig}):''' + _DEDUP_BODY.replace("\n    ", "\n        ") + '''
@@ -696,7 +699,15 @@ class Run(object):
                                     ctx = hit[0]        # usually the innermost one; out of order = __exit__ called by hand
                                     open_ctx.remove(ctx)
                                     entered_in_seg = max(0, entered_in_seg - 1)
-                                    ctx.__exit__(None, None, None)
+                                    if op.get("c"):
+                                        # try: with ctx: ... / except Exception: pass - an error raised while the block is
+                                        # being left (a pause() that raises) is caught; the block HAS been left
+                                        try:
+                                            ctx.__exit__(None, None, None)
+                                        except Exception as e:
+                                            run.exc_ids(e)
+                                    else:
+                                        ctx.__exit__(None, None, None)
                                 # else: the block was already left by a caught exception (try around the with)
                             elif o == "read":
                                 a = op["a"]
@@ -903,6 +914,7 @@ class Run(object):
                 if not k.startswith("_"):
                     saved[k] = getattr(_debug.options, k)
                     setattr(_debug.options, k, v)
+            self.saved_opts = saved
             if clock:
                 fake = _FakeClock(clock)
                 schedmod.utime = fake.utime
@@ -931,6 +943,17 @@ class Run(object):
                 if conv == "call" and root not in self.task_obj:
                     f, a, kw = self.target(root, 0)
                     out = f(*a, **kw)
+                elif conv == "value" and call is self.prog["calls"][0] and root not in self.task_obj and \
+                        len(self.prog["tasks"]) % 2 == 0 and os.environ.get("VERIF_HANDOVER") == "1":
+                    # hand-over: the task object is created, THEN the thread's scheduler is replaced (scheduler.reset(), a
+                    # no-op for the specification: nothing has run yet), then the task is computed - by whatever scheduler
+                    # the thread has now.  State that belongs to the thread must not have been captured by the object.
+                    tk = self.get_task(root, 0)
+                    _sched.reset()
+                    s = _sched.get_scheduler()
+                    s.on_before_batch_flush.subscribe(self._before)
+                    s.on_after_batch_flush.subscribe(self._after)
+                    out = tk.value()
                 else:
                     out = self.get_task(root, 0).value()
                 ev = dict(v=self.enc(out), u=0)
@@ -1011,7 +1034,22 @@ class _AttrObj(object):
 
 class VBatch(BatchBase):
     def __init__(self, run, kind):
-        BatchBase.__init__(self)
+        pre = getattr(run, "saved_opts", None)
+        if pre and kind % 2 == 1 and not run.batch_count.get(kind) and threading.active_count() == 1:
+            # a service's active batch usually exists before anybody turns a debug option on (it was created when the
+            # previous one was flushed): the first batch of every odd kind is constructed under the options as they
+            # were before this run switched its own on (single-threaded runs only: the options are process-global)
+            from asynq import _debug
+            cur = dict((k, getattr(_debug.options, k)) for k in pre)
+            for k, v in pre.items():
+                setattr(_debug.options, k, v)
+            try:
+                BatchBase.__init__(self)
+            finally:
+                for k, v in cur.items():
+                    setattr(_debug.options, k, v)
+        else:
+            BatchBase.__init__(self)
         self.run = run
         self.kind = kind
         n = run.batch_count.get(kind, 0) + 1
@@ -1172,7 +1210,11 @@ class VCtx(AsyncContext, _CtxMixin):
 
     def __exit__(self, ty, val, tb):
         self._run.emit("Exit", a=self._c, t=self._t)
-        return AsyncContext.__exit__(self, ty, val, tb)
+        self._in_exit = True
+        try:
+            return AsyncContext.__exit__(self, ty, val, tb)
+        finally:
+            self._in_exit = False
 
     def resume(self):
         self._nresume += 1
@@ -1183,7 +1225,9 @@ class VCtx(AsyncContext, _CtxMixin):
     def pause(self):
         self._npause += 1
         self._run.emit("Pause", a=self._c)
-        if (self._faulty == "pause" and self._npause == 1) or self._faulty == "pause_always":
+        if (self._faulty == "pause" and self._npause == 1) or self._faulty == "pause_always" or \
+                (self._faulty == "pause_exit" and getattr(self, "_in_exit", False)):
+            # pause_exit: the context objects to being left (a check made on exit): only the pause issued by __exit__ raises
             raise self._run.new_err(90000 + self._c)
 
 
